@@ -24,7 +24,7 @@ na = [{"property_id": i, "reason": src["not_applicable"].get(i, "check not built
 m = {
     "version": 1,
     "setup_cmd": "cd /verif/engine && GOFLAGS=-mod=mod GOPROXY=off GOSUMDB=off GOTOOLCHAIN=local go build -o /verif/bin/gosym ./cmd/gosym",
-    "hooks": {"guard": "verif", "enable": "no source hooks: the harness is injected with go/packages overlays (virtual /repo/zzverif/...) and go test -overlay; -tags verif is passed but nothing in /repo depends on it", "baseline_off_cmd": "cd /repo && go test -vet=off -count=1 ./...", "source_commits": [], "add_only": True},
+    "hooks": {"guard": "verif", "enable": "no source hooks: the harness is injected with go/packages overlays (virtual /repo/zzverif/...) and go test -overlay; -tags verif is passed but nothing in /repo depends on it. One piece of instrumentation exists only in the build of the native replay binary and is never committed to /repo: a copy of cache/cache.go regenerated at every run from the current source, in which Dump's os.WriteFile call goes through a wrapper (harness/runh/inpkg__cache__hook.go, laid over package cache) so that a kill inside a write of the cache file can be replayed at that write", "baseline_off_cmd": "cd /repo && go test -vet=off -count=1 ./...", "source_commits": [], "add_only": True},
     "engines": [{"name": "gosym", "path": "/verif/engine", "serves_properties": sorted(claimed), "kind_free_text": "symbolic executor for Go SSA written for this task: fork of x/tools go/ssa/interp v0.29.0 with SMT bit-vector values, solver-decided branching explored by re-execution, cooperative goroutine scheduler, z3 5.1.0 over a pipe"}],
     "checks": checks,
     "notes": src.get("notes", ""),
